@@ -111,6 +111,19 @@ def workload(tier, seed, scale=1.0):
             cmds.append(cmd_sh('C10', 'shr', ty, rand_digits(rnd, 3, 0), s, 'U', cell=('sh', 'shr', ty, 'U', 'max')))
             cmds.append(cmd_sh('C10', 'shr', ty, -rand_digits(rnd, 3, 0), s, 'I', cell=('sh', 'shr', ty, 'I', 'max')))
             cmds.append(cmd_sh('C10', 'shl', ty, 0, s, 'I', cell=('sh', 'shl', ty, 'I', 'max0')))
+    # negative values whose trailing-zero count straddles the range of the shift-amount type (rounding of >> on negatives
+    # compares the zero count with the amount: the comparison must not happen in the amount's own width)
+    for ty in UTYPES + ITYPES:
+        lo, hi = STYPES[ty]
+        tzs = sorted({hi - 1, hi, hi + 1, hi + 2, 2 * hi + 2, 3 * hi} if hi <= 65535 else {127, 128, 129, 255, 256, 300, 65536})
+        for tz in tzs:
+            for odd in (1, 5, (1 << 64) + 1):
+                a = odd << tz
+                for s in sorted({1, 3, 64, min(hi, tz - 1), min(hi, tz), min(hi, tz + 1), hi // 2}):
+                    if 0 <= s <= hi:
+                        cmds.append(cmd_sh('C10', 'shr', ty, -a, s, 'I', cell=('sh', 'shr', ty, 'I', 'tz-vs-type', tz > hi, s > tz)))
+                        if odd == 5:
+                            cmds.append(cmd_sh('C10', 'shr', ty, a, s, 'U', cell=('sh', 'shr', ty, 'U', 'tz-vs-type', tz > hi, s > tz)))
     # pow forms
     for ty in UTYPES:
         for e in (0, 1, 2, 3, 5, 8, 13, 64, 100, 255):
